@@ -755,12 +755,31 @@ func c19Symmetric(c *Ctx, rule string, helper *ssa.Function) {
 	// decision table against the documented meaning: if either value is 0 both magnitudes must be within
 	// the tolerance; otherwise the difference must be within tolerance × the larger magnitude
 	role := map[string]string{}
+	// "the value is zero": p == 0, or |p| == 0 (the same floats: ±0 only; NaN is neither)
+	isZeroTest := func(t *Term, k int) bool {
+		if !t.isBin("==") {
+			return false
+		}
+		for i := 0; i < 2; i++ {
+			z, v := t.Args[i], t.Args[1-i]
+			if !z.isConst("0") {
+				continue
+			}
+			if v.Op == "call" && v.Sym == "math.Abs" && len(v.Args) == 1 {
+				v = v.Args[0]
+			}
+			if v.isParam(k) {
+				return true
+			}
+		}
+		return false
+	}
 	for _, a := range atoms {
 		t := atomOf[a]
 		switch {
-		case t.isBin("==") && (t.Args[0].isConst("0") && t.Args[1].isParam(0) || t.Args[1].isConst("0") && t.Args[0].isParam(0)):
+		case isZeroTest(t, 0):
 			role["x0"] = a
-		case t.isBin("==") && (t.Args[0].isConst("0") && t.Args[1].isParam(1) || t.Args[1].isConst("0") && t.Args[0].isParam(1)):
+		case isZeroTest(t, 1):
 			role["y0"] = a
 		case t.isBin("<=") && t.Args[0].Op == "call" && t.Args[0].Sym == "math.Abs" && t.Args[0].Args[0].isParam(0) && t.Args[1].isParam(2):
 			role["xs"] = a
